@@ -54,15 +54,19 @@ class Poly:
 
     __rmul__ = __mul__
 
+    W = 20  # signed bit-vector width of energies (|E| stays far below 2^19 for the corpus sizes)
+
     @property
     def t(self):
-        terms = []
+        """the polynomial as a signed bit-vector term over z3 Bool variables (bit-vectors instead of
+        integers: z3 5.1.0's linear arithmetic core hit an internal assertion on these sums)"""
+        tot = z3.BitVecVal(0, Poly.W)
         for k, v in sorted(self.mono.items(), key=lambda kv: (len(kv[0]), sorted(kv[0]))):
             if not k:
-                terms.append(z3.IntVal(v))
+                tot = tot + z3.BitVecVal(v, Poly.W)
             else:
-                terms.append(z3.If(z3.And(*[z3.Bool(n) for n in sorted(k)]), v, 0))
-        return z3.Sum(terms) if terms else z3.IntVal(0)
+                tot = tot + z3.If(z3.And(*[z3.Bool(n) for n in sorted(k)]), z3.BitVecVal(v, Poly.W), z3.BitVecVal(0, Poly.W))
+        return tot
 
     def compile(self, strength=5.0):
         return Model(self)
